@@ -59,7 +59,11 @@ def hist_cases(rng, tier, family, ncfg, per_cfg, nops, weights=None, observe_all
         for _ in range(per_cfg):
             r = sub(rng)
             obs = None
-            if observe_all:
+            if observe_all == 'lazy':
+                # contents of every handle after every step, roots only now and then: handles stay
+                # un-hashed for long stretches (a memo written into another handle's nodes shows later)
+                obs = lambda g, _r=r: g.observe_all(root_p=0.12, rng=_r)
+            elif observe_all:
                 obs = lambda g: g.observe_all()
             elif dump_every:
                 def obs(g, _k=[0]):
@@ -273,6 +277,7 @@ def fam_C03(rng, tier):
             out.append(Case(base + tail, 'roots-removed', ('memo',), {'cfg': cfg, 'pair': 'a'}))
             out.append(Case(variant + tail, 'roots-inserted', ('memo', 'pair_equal'),
                             {'cfg': cfg, 'pair': 'b', 'common': common}))
+    out += readers_vs_hasher(rng, tier)
     return out
 
 
@@ -282,6 +287,24 @@ def fam_C04(rng, tier):
          'eq': 0}
     cs = hist_cases(rng, tier, 'interleaved-handles', 50 * n, 3, 22, weights=w, observe_all=True,
                     nslots=4)
+    cs += hist_cases(rng, tier, 'interleaved-handles-lazy-roots', 40 * n, 3, 22, weights=w, observe_all='lazy',
+                     nslots=4, final_roots=True)
+    # pairs of related handles in the states the rebase family names, then a rebase either way and
+    # only afterwards the roots of both and of witnesses cloned before
+    for cfg in pick_configs(rng, scale(tier, 80, 400)):
+        kind, N, m = cfg
+        r = sub(rng)
+        lines = [cfg_line(cfg)]
+        motif = rebase_pair(r, kind, N, lines)
+        lines += ['clone 0 8', 'clone 1 9', 'tovec 0', 'tovec 1']
+        lines.append(r.choice(['rebase 0 1', 'rebase 1 0']))
+        for h in (0, 1, 8, 9):
+            lines += ['tovec %d' % h, 'pending %d' % h]
+        lines += ['dump 0 1 8 9']
+        for h in (0, 1, 8, 9):
+            lines += ['apply %d' % h, 'root %d' % h]
+        lines += ['eq 0 8', 'eq 1 9']
+        cs.append(Case(lines, 'pair-then-rebase-' + motif, ('memo',), {'cfg': cfg, 'motif': motif}))
     cs += ssz_relatives(rng, tier)
     return cs
 
@@ -482,7 +505,7 @@ def rebase_pair(r, kind, N, lines):
     ln = r.randint(0, maxl)
     xs = [val(r, kind, pzero=0.5) for _ in range(ln)]
     motif = r.choice(['equal', 'zero-suffix', 'prefix', 'k-diff', 'unrelated', 'shared', 'pending-self',
-                      'pending-base', 'converted', 'pending-compensates', 'left-diff-unhashed-base'])
+                      'pending-base', 'converted', 'pending-compensates', 'left-diff-unhashed-base', 'siblings'])
     Z = zero_val(kind)
     if motif == 'equal':
         a, b = xs, list(xs)
@@ -525,6 +548,22 @@ def rebase_pair(r, kind, N, lines):
         return motif
     if motif == 'left-diff-unhashed-base':
         lines += ['new 1 list ' + ' '.join(b), 'root 0']
+        return motif
+    if motif == 'siblings':
+        # two descendants of a common (possibly hashed) ancestor: both wrote the same value at the same
+        # place (equal content, distinct nodes), one of them wrote elsewhere too; the rest is one node
+        if r.random() < 0.5:
+            lines.append('root 0')
+        lines.append('clone 0 1')
+        if a:
+            i = r.randrange(len(a)); v = val(r, kind, pzero=0.1)
+            lines += ['getmut 0 %d %s' % (i, v), 'getmut 1 %d %s' % (i, v)]
+            for _ in range(r.randint(1, 2)):
+                lines.append('getmut %d %d %s' % (r.choice([0, 1, 1]), r.randrange(len(a)), val(r, kind, pzero=0.0)))
+        lines += ['apply 0', 'apply 1']
+        for h in (0, 1):
+            if r.random() < 0.5:
+                lines.append('root %d' % h)
         return motif
     if motif == 'shared':
         lines.append('clone 0 1')
@@ -665,6 +704,40 @@ def fam_C08(rng, tier):
             lines += ['dump 0 1', 'rebase 0 1', 'dump 0 1', 'tovec 0', 'tovec 1']
             out.append(Case(lines, 'rebase-sharing-' + motif, ('sharing',),
                             {'cfg': cfg, 'motif': motif, 'equal': xs == ys}))
+    # the rebased collection has internal sharing (built by repetition, or de-duplicated): sibling
+    # subtrees are one node; the base is independent and differs in a few places
+    for cfg in pick_configs(rng, scale(tier, 60, 300)):
+        kind, N, m = cfg
+        r = sub(rng)
+        maxl = min(N, 40)
+        ln = r.choice([maxl, r.randint(1, maxl)])
+        x = val(r, kind, pzero=0.2)
+        ys = [x] * ln
+        pfk = PF[kind] or 1
+        # differences in the leftmost places of aligned blocks (and elsewhere)
+        spots = {0} | {r.randrange(ln) for _ in range(r.choice([0, 1, 2]))}
+        if ln > 2 * pfk and r.random() < 0.7:
+            spots.add((r.randrange(ln // (2 * pfk)) * 2 * pfk))
+        for i in spots:
+            if i < ln:
+                ys[i] = val(r, kind, pzero=0.0)
+        vec = ln == N and N <= 40 and r.random() < 0.5
+        k = 'vec' if vec else 'list'
+        lines = [cfg_line(cfg), 'new 1 %s %s' % (k, ' '.join(ys))]
+        how = r.randrange(3)
+        if vec:
+            lines.append('fromelem 0 %s' % x)
+        elif how == 0:
+            lines.append('repeat 0 %d %s' % (ln, x))
+        elif how == 1:
+            lines += ['new 0 list ' + ' '.join([x] * ln), 'intra 0']
+        else:
+            lines += ['repeat 0 %d %s' % (ln, x), 'intra 0']
+        for h in (0, 1):
+            if r.random() < 0.5:
+                lines.append('root %d' % h)
+        lines += ['dump 0 1', 'rebase 0 1', 'dump 0 1', 'tovec 0', 'tovec 1']
+        out.append(Case(lines, 'rebase-sharing-repeated-self', ('sharing',), {'cfg': cfg, 'motif': 'repeated-self', 'equal': False}))
     return out
 
 
@@ -831,6 +904,7 @@ def fam_C10(rng, tier):
         lines += ['tovector 0 3', 'dump 1 3']
         out.append(Case(lines, 'path-copying-conversion', ('flush_bound',), {'cfg': cfg, 'k': len(keys), 'len': N,
                                                                              'dump_line': 'dump 1 3'}))
+    out += readers_vs_hasher(rng, tier)
     return out
 
 
@@ -1106,6 +1180,11 @@ def fam_C15(rng, tier):
             lines = g.run(22)
             if huge:
                 lines += ['apply 0', 'root 0', 'sszmeta vec', 'sszmeta list']
+                # decoding into the deepest capacities: byte-length arithmetic against N
+                two = [val(r, kind), val(r, kind)]
+                good = enc_seq(kind, two)
+                lines += ['unssz 5 list %s' % hexs(good), 'len 5', 'tovec 5', 'unssz 6 list %s' % hexs(good[:-1]),
+                          'unssz 6 vec %s' % hexs(good), 'de 7 list ' + ' '.join(two), 'len 7']
             out.append(Case(lines, 'faults' + ('-huge-N' if huge else ''), ('wellformed', 'error_atomic'),
                             {'cfg': cfg}))
     out += motif_histories(rng, tier)
@@ -1176,8 +1255,42 @@ def fam_C16(rng, tier):
         for h in shared:
             lines += ['root %d' % h, 'tovec %d' % h]
         lines.append('dump 0 1 2 3')
-        out.append(Case(lines, 'threads-%d' % nthreads, ('memo', 'no_deadlock'), {'cfg': cfg, 'threads': nthreads}))
+        out.append(Case(lines, 'threads-%d' % nthreads, ('memo', 'no_deadlock', 'conc_memoises'), {'cfg': cfg, 'threads': nthreads}))
     out += conc_heavy(rng, tier)
+    return out
+
+
+def readers_vs_hasher(rng, tier):
+    out = []
+    # one thread hashes each shared, not yet hashed collection while many others only read its memo
+    # fields (rebasing private clones on it walks both trees and takes every node's read lock): every
+    # memo must be stored however the readers and the one writer interleave
+    for cfg in [('h256', 1024, 'btree'), ('u64', 1024, 'maxvec'), ('cont', 33, 'vec'), ('h256', 1024, 'vec')] * scale(tier, 1, 2):
+        kind, N, m = cfg
+        r = sub(rng)
+        lines = [cfg_line(cfg)]
+        for rnd in range(scale(tier, 3, 4)):
+            n = N
+            xs = [val(r, kind, pzero=0.05) for _ in range(n)]
+            ys = list(xs)
+            for _ in range(3):
+                ys[r.randrange(n)] = val(r, kind, pzero=0.0)
+            lines += ['new 0 list ' + ' '.join(xs), 'new 1 list ' + ' '.join(ys), 'conc-begin']
+            for t in range(16):
+                priv = 100 + 10 * t
+                if t == 0:
+                    ops = ['root 0']
+                elif t == 1:
+                    ops = ['root 1']
+                else:
+                    a, b = (0, 1) if t % 2 == 0 else (1, 0)
+                    ops = []
+                    for k in range(3):
+                        ops += ['clone %d %d' % (a, priv + k), 'rebase %d %d' % (priv + k, b)]
+                for o in ops:
+                    lines.append('T %d %s' % (t, o))
+            lines += ['conc-end', 'dump 0 1', 'root 0', 'root 1']
+        out.append(Case(lines, 'threads-readers-vs-hasher', ('no_deadlock', 'memo', 'conc_memoises'), {'cfg': cfg, 'threads': 16}))
     return out
 
 
@@ -1224,7 +1337,8 @@ def conc_heavy(rng, tier):
             if kind != 'nest':
                 lines.append('dump 0 1')
             lines += ['root 0', 'root 1', 'len 0']
-        out.append(Case(lines, 'threads-heavy-' + kind, ('no_deadlock', 'memo'), {'cfg': cfg, 'threads': 16}))
+        out.append(Case(lines, 'threads-heavy-' + kind, ('no_deadlock', 'memo', 'conc_memoises'), {'cfg': cfg, 'threads': 16}))
+    out += readers_vs_hasher(rng, tier)
     # many threads hash fresh, private, very deep and nearly empty trees at once (zero subtrees deeper
     # than the precomputed table are computed on the fly)
     for cfg in [('u64', 2 ** 60, 'btree'), ('h256', 2 ** 63, 'btree'), ('u64', 2 ** 63, 'btree')] * scale(tier, 16, 24):
